@@ -357,3 +357,7 @@ def run(rep, facts, tier):
         fs = facts['security']
         single_reader_guard(rep, fs, fs.find(W + 'send_cache_change'), ('MessageBuilder::data_msg', 'MessageBuilder::data_frag_msg'), 'single-reader(security)')
         single_reader_guard(rep, fs, fs.find(W + 'handle_repair_frags_send_worker'), ('MessageBuilder::data_frag_msg',), 'single-reader(security)')
+
+    # ------------------------------------------------------------ R04.8 crossed roles (shared lint, rdv/swaplint.py)
+    from rdv import swaplint
+    swaplint.run_rule(rep, facts['default'], 'R04.8', ['rtps::writer', 'rtps::rtps_reader_proxy', 'structure::cache_change', 'dds::with_key::datawriter'])
